@@ -21,8 +21,13 @@ class Setup:
     def __init__(self, seed_key, want_nested=True):
         self.rng = random.Random(seed_key)
         self.base = os.path.join(common.WORK, 'defs', 'hist-%d-%s' % (os.getpid(), abs(hash(seed_key)) % 10 ** 8))
+        import zlib
+        h = zlib.crc32(str(seed_key).encode())
+        # rare features on a fixed share of the sets (not left to the dice): 1 in 8 with a wide entity, 1 in 16 with a huge fixed-size
+        # property, 1 in 4 with shadowing aliases, random section order and library identifiers as argument names
+        force = (('wide',) if h % 8 == 0 else ()) + (('huge',) if h % 16 == 1 else ()) + (('shadow', 'order', 'libnames') if h % 4 == 2 else ())
         for attempt in range(20):
-            ds = defsets.gen_defset(self.rng, n_entities=self.rng.randint(2, 4), simple_types=True, want_nested=want_nested)
+            ds = defsets.gen_defset(self.rng, n_entities=self.rng.randint(2, 4), simple_types=True, want_nested=want_nested, force=force)
             defsets.write_defset(ds, self.base)
             loaded = idefs.load_views(self.base)
             if 'ok' in loaded:
@@ -160,10 +165,13 @@ def _hist_worker(cfg):
             subs = None
             if cfg.get('subs'):
                 subs = gen_subs(rng, st.views, cfg['subs'])
-            h = history.generate(rng, st.views, dialect, cfg['n_events'], weights=cfg.get('weights'), big=cfg.get('big', False),
+            # a set with a property of tens of kilobytes: short histories, no per-packet dumps (the point is the id order, not the volume)
+            heavy = any(p[1] >= 60000 and p[0] == 'huge' for v in st.views for p in v['clientProps'])
+            h = history.generate(rng, st.views, dialect, min(cfg['n_events'], 20) if heavy else cfg['n_events'], weights=cfg.get('weights'), big=cfg.get('big', False),
                                  subscribed=set(s[0] for s in subs['methods']) if subs else None)
             strict = cfg.get('strict', False)
-            model, impl, stream = run_history(drv, st, dialect, h.packets, strict=strict, subs=subs, every=cfg.get('every', False))
+            every_ = cfg.get('every', False) and not heavy
+            model, impl, stream = run_history(drv, st, dialect, h.packets, strict=strict, subs=subs, every=every_)
             exp = iplay.canon_generic(history.expected_world(h))
             kinds = {}
             for _, _, m in h.packets:
@@ -194,9 +202,9 @@ def _hist_worker(cfg):
                 d_co = compare_worlds(model['world'], impl['world'])
                 if d_co is None and norm_end(model) != norm_end(impl):
                     d_co = 'ending %s vs %s' % (norm_end(model), norm_end(impl))
-                if d_co is None and model.get('log', impl['log']) != impl['log'] and not cfg.get('every'):
+                if d_co is None and model.get('log', impl['log']) != impl['log'] and not every_:
                     d_co = 'invocation log: ' + first_log_diff(model['log'], impl['log'])
-                if d_co is None and cfg.get('every'):
+                if d_co is None and every_:
                     for k, (ms, is_) in enumerate(zip(model['steps'], impl['steps'])):
                         dd = compare_worlds(ms['world'], is_['world'])
                         if dd is None and (ms['err'] is None) != (is_['err'] is None):
